@@ -72,6 +72,10 @@ def run(ctx):
              "its end) is called only from the End arm of the VM loop and from the commands that "
              "end a run (DELETE, RENUM, LOAD, SAVE); a direct line that fails to compile stops "
              "without touching cont")
+    ctx.rule("C13.e", "STOP or END as the last statement of a THEN part is still followed by the jump "
+             "over the ELSE part, so CONT continues after the IF and not inside its ELSE (C01.j)")
+    from rules import c01 as _c01, common as _common
+    _c01.rule_j(_common.Proxy(ctx, "C13.e"), cr)
     rule_a(ctx, cr)
     rule_b(ctx, cr)
     rule_c(ctx, cr)
